@@ -321,18 +321,22 @@ def build_mesh(rng, curve, family, size):
     tgrid = [0, 1]
     if family == 'time-grid':
         tgrid = rng.choice([[0, 0.5, 1], [0, 1, 2], [0, 0.25, 1], [0, 1, 3]])
+    if family == 'extreme-slabs':
+        # finding F13 (known): four slabs of 1e-9 on the unrefined curve, aspect h_x^2/h_t = 1e9
+        tgrid = [1e-9 * k for k in range(5)]
     if family == 'thin-slabs':
         # user-supplied time grids with many slabs that are very thin against h_x^2 (time stepping schemes, grids graded
         # towards t = 0): elements flat in time, couplings between time-separated slabs are narrow ridges along x = y
         kind = rng.choice(['equal', 'graded', 'equal-then-coarse'])
         nsl = max(3, min(16, size // max(1, len(gamma.pw_gamma))))
         if kind == 'equal':
-            h = rng.choice([3e-5, 1e-4, 2.0**-12])
+            h = rng.choice([3e-5, 1e-4, 2.0**-12, 1e-6])
             tgrid = [h * k for k in range(nsl + 1)]
         elif kind == 'graded':
+            nsl = min(nsl, 12)      # first slab 4^-11: aspect up to 4e7; beyond ~3e8 see finding F13 (corpus case below)
             tgrid = [0.0] + [2.0**-(2 * (nsl - k)) for k in range(1, nsl + 1)]
         else:
-            h = rng.choice([3e-5, 2.0**-14])
+            h = rng.choice([3e-5, 2.0**-14, 1e-6])
             tgrid = [h * k for k in range(nsl - 2)] + [1e-2, 0.1, 1.0]
     with quiet():
         mesh = MeshParametrized(gamma, initial_time_mesh=tgrid)
@@ -355,7 +359,7 @@ def build_mesh(rng, curve, family, size):
             do(['refine_axis', i, ax])
 
     with quiet():
-        if family in ('initial', 'time-grid', 'thin-slabs'):
+        if family in ('initial', 'time-grid', 'thin-slabs', 'extreme-slabs'):
             pass
         elif family == 'uniform':
             while len(mesh.leaf_elements) * 4 <= size:
@@ -468,6 +472,7 @@ def mesh_plan(rng, tier, boost):
     plan = []
     for c in CURVES:
         plan.append((c, 'initial', 0))
+    plan.append(('UnitSquare', 'extreme-slabs', 16))     # corpus: known finding F13
     fams = ['uniform', 'random', 'dorfler-iso', 'dorfler-aniso', 'point-graded', 'refine-grading', 'anisotropic', 'time-grid',
             'thin-slabs']
     reps = (3 if tier == 'quick' else 5) * (2 if boost else 1)
@@ -548,7 +553,9 @@ def certify_meshes(res, tier, boost=False):
                         note='the verified checker (sound and complete) proves that sym(A) - 0.01 diag(A) is not positive '
                              'definite for this assembled matrix')
             if inq:
-                res.violation('C13:not-positive-definite:%s:%s' % (curve, family), data)
+                extreme = desc.get('max_aspect', 0) > 1e8
+                res.violation('C13:extreme-aspect-not-positive-definite:%s' % curve if extreme else
+                              'C13:not-positive-definite:%s:%s' % (curve, family), data)
             else:
                 res.notes.setdefault('outside_quantifier_failures', []).append(dict(desc, history=hist))
         elif out == 'undecided':
